@@ -7,7 +7,8 @@ text - is the same for a text and for each of its four rewrites.  `parseLines` m
 loops, `splitLines` is the specification; the correspondence harness ties `parseLines` and the
 prelude to the real `process_line` calls through the line tap.
 The two places where the raw text is read otherwise (front matter, `total_size`) are outside these
-theorems; see Props/C20.lean (`front_matter_cr_counterexample`) and the known findings.
+theorems; for the front matter splitter see Props/C20.lean (`front_matter_any_line_endings`; the
+former CR-only defect: `front_matter_cr_repaired`), for `total_size` the known findings.
 -/
 import Comrak.Lemmas.Feed
 namespace Comrak.C08
